@@ -337,6 +337,10 @@ type snappyCodec struct {
 }
 
 func (s *snappyCodec) decompress(compressed []byte) ([]byte, error) {
+	// Every block ends with a 4 byte checksum of the uncompressed data
+	if len(compressed) < 4 {
+		return nil, fmt.Errorf("snappy block of %d bytes is too short to hold a checksum", len(compressed))
+	}
 	var err error
 	s.buf, err = snappy.Decode(s.buf[:cap(s.buf)], compressed[:len(compressed)-4])
 	if err != nil {
